@@ -124,6 +124,24 @@ def run(m: Model, r: Report, tier: str) -> None:
             f"decision table {[(sorted(c), o) for c, o, _ in t1]}; expected: unknown in the active session -> known elsewhere ? 0x7F : 0x11", loc=f1.loc)
     r.check(all("request.service_id" in full for _, o, full in t1 if o not in ("None",)), "R3", f"{f1.qualname}#names-request-service",
             "the negative response must name the request's service id", loc=f1.loc)
+    # applicability of the sub-function rules is decided by the service id alone, so that unparsable (raw) requests of sub-function
+    # services are classified like parsed ones
+    isr = m.require_function(f"{SRV}.UDSServer._is_sub_function_request")
+    req_par = isr.params()[1] if len(isr.params()) > 1 else "request"
+    used = {ast.unparse(n) for n in ast.walk(isr.node) if isinstance(n, ast.Attribute) and isinstance(n.value, ast.Name) and n.value.id == req_par}
+    type_tests = [ast.unparse(n) for n in ast.walk(isr.node) if isinstance(n, ast.Call) and ast.unparse(n.func) in ("isinstance", "type")
+                  and any(isinstance(a_, ast.Name) and a_.id == req_par for a_ in n.args)]
+    bare = [n for n in ast.walk(isr.node) if isinstance(n, ast.Call) and ast.unparse(n.func) not in ("isinstance", "type")
+            and any(isinstance(a_, ast.Name) and a_.id == req_par for a_ in n.args)]
+    r.check(used == {f"{req_par}.service_id"} and not type_tests and not bare, "R3", f"{isr.qualname}#by-service-id",
+            f"whether a request belongs to a sub-function service is decided from {sorted(used) + type_tests}: it must depend on the service id only, "
+            "otherwise an unparsable request of a sub-function service skips the missing-/unsupported-sub-function rules and gets 0x13 (or generalReject)", loc=isr.loc)
+    iss = m.require_function(f"{SRV}.UDSServer._is_sub_function_service")
+    r.check(any(isinstance(n, ast.Call) and ast.unparse(n.func) == "self._is_sub_function_service" and [ast.unparse(a_) for a_ in n.args] == [f"{req_par}.service_id"]
+                for n in ast.walk(isr.node)), "R3", f"{isr.qualname}#same-as-model",
+            f"must delegate to {iss.name}(request.service_id), the predicate the model generation uses", loc=isr.loc)
+    from sa.uds_rules import parse_dynamic_total
+    parse_dynamic_total(m, r, "R3")
     f2 = m.require_function(f"{SRV}.UDSServer.default_response_if_missing_sub_function")
     t2 = decision_table(f2)
     r.check(has_row(t2, ["self._is_sub_function_request(request) and len(request.pdu) < 2"], [], "incorrectMessageLengthOrInvalidFormat") and
